@@ -316,6 +316,19 @@ func genC14(maxTail int) func(t *rapid.T) pktsim.History {
 				add(pktsim.Op{K: "update", L: L, D: rapid.IntRange(0, 1).Draw(t, "side")})
 			}
 		}
+		// final sweep (drawn last): a clock jump past the medium timeouts, then fresh-proof
+		// timeouts (timeout-on-close when the counterparty closed) of packets sent from the
+		// closed end - the only packet messages that may still succeed there
+		if rapid.IntRange(0, 2).Draw(t, "sweep") != 0 {
+			add(pktsim.Op{K: "time", N: 3500})
+			for k := rapid.IntRange(1, 3).Draw(t, "sweepN"); k > 0; k-- {
+				kind := "timeout"
+				if mode == "toc" && rapid.Bool().Draw(t, "sweepToc") {
+					kind = "toc"
+				}
+				add(pktsim.Op{K: kind, P: pick(fwd), H: -1})
+			}
+		}
 		return h
 	}
 }
@@ -323,7 +336,7 @@ func genC14(maxTail int) func(t *rapid.T) pktsim.History {
 func TestC14(t *testing.T) {
 	vx.Check(t, vx.Prop[pktsim.History]{
 		ID:        "C14",
-		Rule:      "three-phase histories on one ORDERED v1 link over 2 chains: packets in both directions (some received / acknowledged in order), a packet that times out with more packets behind it; the timeout after blocks / clock jumps, or counterparty close + timeout-on-close; then 3-12 further sends, receives, acknowledgements, timeouts, duplicates aimed at the closed end; non-trivial = a timeout succeeded with >=2 commitments in flight on that end and >=1 later send/receive/acknowledgement targeted the closed end; distinct by full history",
+		Rule:      "three-phase histories on one ORDERED v1 link over 2 chains: packets in both directions (some received / acknowledged in order), a packet that times out with more packets behind it; the timeout after blocks / clock jumps, or counterparty close + timeout-on-close; then 3-12 further sends, receives (often of asynchronously answered packets), acknowledgements, timeouts, duplicates aimed at the closed end and usually a final sweep of fresh-proof timeouts after a clock jump; non-trivial = a timeout succeeded with >=2 commitments in flight on that end and >=1 later send/receive/acknowledgement targeted the closed end; distinct by full history",
 		MinNTFrac: 0.4,
 		Gen:       genC14(12),
 		Run:       runC14(t),
